@@ -22,6 +22,7 @@ import (
 	"bufio"
 	"bytes"
 	"encoding/hex"
+	"encoding/json"
 	"fmt"
 	"go/scanner"
 	"go/token"
@@ -231,6 +232,7 @@ type env struct {
 	g     *base.Globals
 	idx   int
 	extra map[string]int
+	known map[string]bool // keys of status "known" entries of known_findings.json
 }
 
 func (e *env) parses(src string) bool {
@@ -256,7 +258,15 @@ func (e *env) check(kind, name, input string, allc, toCoq, wantParse bool) {
 	if strings.HasPrefix(kind, "corpus") {
 		key = "corpus:" + strings.TrimSuffix(name, ".txt") // the keys used in known_findings.json
 	}
+	// corpus files known-*.txt hold the exact inputs of (proposed) known findings: they are replayed with the strict
+	// oracles (no tolerance for U+2029, no exclusion of Go 1.18 '~'); the failure is reported only when the key is
+	// listed in known_findings.json (then ./check prints KNOWN-FINDING), otherwise it is noted in the evidence
+	strict := strings.HasPrefix(key, "corpus:known-")
 	fail := func(what string, got, want interface{}) {
+		if strict && !e.known[key] {
+			e.extra["proposed_known_finding_reproduced:"+key+": "+what]++
+			return
+		}
 		e.rep.Fail(vh.Failure{Key: key, What: what, Input: map[string]interface{}{"kind": kind, "name": name, "allcomments_first": allc, "input": short(input), "input_hex_prefix": hex.EncodeToString([]byte(short(input)))}, Got: got, Want: want})
 		e.extra["fail:"+what]++
 	}
@@ -271,6 +281,10 @@ func (e *env) check(kind, name, input string, allc, toCoq, wantParse bool) {
 	}
 	// ---- O1
 	delivered := bytes.Join(o.lines, nil)
+	if strict && !bytes.Equal(delivered, []byte(input)) {
+		fail("O1 BufReadline delivered other bytes than the stream (U+2029 replaced by newline)", short(string(delivered)), short(input))
+		return
+	}
 	if want := bytes.Replace([]byte(input), ps, []byte{'\n'}, -1); !bytes.Equal(delivered, want) {
 		fail("BufReadline delivered other bytes than the stream", short(string(delivered)), short(string(want)))
 		return
@@ -331,7 +345,7 @@ func (e *env) check(kind, name, input string, allc, toCoq, wantParse bool) {
 			hasTilde = true
 		}
 	}
-	if hasTilde {
+	if hasTilde && !strict {
 		e.extra["inputs_with_go1.18_tilde(O2-O5 skipped)"]++
 	} else if sc.errors == 0 {
 		off, ti := 0, 0
@@ -379,7 +393,7 @@ func (e *env) check(kind, name, input string, allc, toCoq, wantParse bool) {
 		e.extra["inputs_with_scanner_errors(O2,O4,O5 skipped)"]++
 	}
 	// ---- O3
-	if wantParse && sc.errors == 0 && !hasTilde {
+	if wantParse && sc.errors == 0 && !hasTilde && !strict {
 		if e.parses(string(out)) {
 			e.extra["O3_inputs_parsed_whole"]++
 			for ci := 0; ci < len(o.chunks); ci++ {
@@ -415,7 +429,7 @@ func (e *env) check(kind, name, input string, allc, toCoq, wantParse bool) {
 	if len(rw) > 0 {
 		e.rep.Dist("hashbang_rewritten")
 	}
-	if toCoq {
+	if toCoq && !strict {
 		// lines delivered up to the first error
 		var lens []string
 		for _, l := range o.lines {
@@ -552,6 +566,21 @@ func main() {
 	if verif == "" {
 		verif = "/verif"
 	}
+	e.known = map[string]bool{}
+	if b, err := os.ReadFile(filepath.Join(verif, "known_findings.json")); err == nil {
+		var kf struct {
+			Findings []struct {
+				Property, Status, Key string
+			} `json:"findings"`
+		}
+		if json.Unmarshal(b, &kf) == nil {
+			for _, f := range kf.Findings {
+				if f.Property == "C26" && f.Status == "known" {
+					e.known[f.Key] = true
+				}
+			}
+		}
+	}
 	cfiles, _ := filepath.Glob(filepath.Join(verif, "corpus", "C26", "*.txt"))
 	sort.Strings(cfiles)
 	for _, f := range cfiles {
@@ -588,10 +617,10 @@ func main() {
 	rec = func(ix []int) {
 		if len(ix) > 0 {
 			in := build(ix, templates)
-			toCoq := len(ix) <= 2 || rng.Chance(1, 12)
+			toCoq := len(ix) <= 1 || rng.Chance(1, 4)
 			e.check("seq", seqName(ix), in, true, toCoq, true)
 			if len(ix) <= 2 {
-				e.check("seq-repl", seqName(ix), in, false, len(ix) == 1 || rng.Chance(1, 6), true)
+				e.check("seq-repl", seqName(ix), in, false, len(ix) == 1 || rng.Chance(1, 12), true)
 			}
 			nExh++
 		}
